@@ -683,7 +683,7 @@ func WithClientContextPropagator(propagator remote.ContextPropagator) ClientOpti
 //  2. Interface match — the first registered interface the message implements.
 //  3. Default — the [Serializer] configured via [WithRemotingSerializer].
 //
-// If serializer is nil the option is silently ignored.
+// If serializer is nil or msg is an untyped nil the option is silently ignored.
 func WithClientSerializers(msg any, serializer remote.Serializer) ClientOption {
 	return func(r *client) {
 		if serializer == nil {
@@ -691,9 +691,13 @@ func WithClientSerializers(msg any, serializer remote.Serializer) ClientOption {
 		}
 
 		typ := reflect.TypeOf(msg)
+		// An untyped nil message has no type to register a serializer for.
+		if typ == nil {
+			return
+		}
 		// A typed nil pointer whose element is an interface (e.g. (*proto.Message)(nil))
 		// registers the serializer for all values that implement that interface.
-		if typ != nil && typ.Kind() == reflect.Pointer && typ.Elem().Kind() == reflect.Interface {
+		if typ.Kind() == reflect.Pointer && typ.Elem().Kind() == reflect.Interface {
 			r.serializers = append(r.serializers, ifaceEntry{
 				iface:      typ.Elem(),
 				serializer: serializer,
